@@ -7,5 +7,6 @@ CONSTANTS
   MaxOps = 8
   Slack = 0
   UseResult = FALSE
+  Recheck = TRUE
 INVARIANTS TypeOK NoOrphan Reclaimed FreeIsEmpty NoStale
 CHECK_DEADLOCK FALSE
